@@ -7,7 +7,7 @@ ENGINES := x_parse x_print x_hist x_fault x_compare x_minify x_utils x_sched
 HDRS := $(wildcard src/*.hpp) $(wildcard src/*.inc)
 OBJS := $(B)/h/sup.o $(patsubst %,$(B)/h/%.o,$(filter $(ENGINES),$(basename $(notdir $(wildcard src/x_*.cpp)))))
 
-.PHONY: setup harness inc clean
+.PHONY: setup harness inc clean selftest
 setup: harness
 harness: inc
 	@$(MAKE) --no-print-directory $(OBJS)
@@ -19,6 +19,10 @@ inc:
 
 $(B)/h/%.o: src/%.cpp $(HDRS) $(B)/inc/cJSON.h $(B)/inc/cJSON_Utils.h
 	$(CXX) $(CXXFLAGS) -c $< -o $@
+
+selftest: harness
+	$(CXX) $(CXXFLAGS) src/selftest.cpp $(B)/h/sup.o $(REPO)/cJSON.c $(REPO)/cJSON_Utils.c -x none -Wl,--wrap=malloc,--wrap=calloc,--wrap=realloc,--wrap=free -lm -o $(B)/selftest
+	python3 tools/selftest.py
 
 clean:
 	rm -rf $(B)
